@@ -823,3 +823,18 @@ mutant('C09', 'lewis-lookup-by-searchsorted', MB, "    return WORM_GEAR_AND_WHEE
 mutant('C11', 'time-interval-radd-wrong-unit', UN, "    def __sub__(self, other: Time | TimeInterval) -> Time | TimeInterval:\n        super().__sub__(other=other)", "    def __radd__(self, other):\n        return Time(value=other.to(self.__unit).value + self.__value, unit=other.unit)\n\n    def __sub__(self, other: Time | TimeInterval) -> Time | TimeInterval:\n        super().__sub__(other=other)", 'C11.dep.arith')
 mutant('C03', 'instants-spaced-T-over-n', SV, "initial_time + k*time_discretization", "initial_time + k*(simulation_time/simulation_steps)", 'C03.euler.grid')
 mutant('C08', 'current-divides-by-zero-torque (pre-fix shape)', DC, "        if maximum_torque.value == 0:\n            load_factor = 0\n        else:\n            load_factor = self.driving_torque/maximum_torque\n", "        load_factor = self.driving_torque/maximum_torque\n", 'C08.boundary-division')
+
+# ------------------------------------------------------------------------------------------ stepping loop over a pre-computed list of instants (false alarm met while probing)
+_STEP = """        for k in range(1, simulation_steps + 1):
+
+            self.__powertrain.update_time(
+                initial_time + k*time_discretization
+            )
+"""
+_STEP_LIST = """        instants = [initial_time + k*time_discretization for k in range(1, simulation_steps + 1)]
+        for instant in instants:
+            self.__powertrain.update_time(instant)
+"""
+for _pid in ('C01', 'C03', 'C11', 'C16', 'C17'):
+    benign(_pid, 'stepping-over-precomputed-instants', SV, _STEP, _STEP_LIST)
+mutant('C11', 'precomputed-instants-one-short', SV, _STEP, _STEP_LIST.replace('range(1, simulation_steps + 1)', 'range(1, simulation_steps)'), 'C11')
